@@ -275,7 +275,15 @@ fn encode<'t, T>(
                         pattern.push(')');
                     }
                 },
-                (Only, Wildcard(Tree { .. })) => grouping.push_str(pattern, ".*"),
+                (Only, Wildcard(Tree { has_root })) => {
+                    if *has_root {
+                        // A rooted tree wildcard only matches rooted paths.
+                        grouping.push_str(pattern, sepexpr!("{0}.*"));
+                    }
+                    else {
+                        grouping.push_str(pattern, ".*");
+                    }
+                },
             },
             TokenTopology::Branch(branch) => match branch {
                 Alternation(alternation) => {
